@@ -146,6 +146,27 @@ fn run_win(a: &Args) {
                 if !(dv <= 4.0 * tol + 1e-15) { st.oracle_fail(&format!("window value {} of {} is not the window function at {}/({}-1)", i, n, i, n), &op, &format!("{:e}", want), &format!("{:e}", vals[i])); } else { st.oracle_ok(1); }
                 if !(vals[i] >= 0.0 && vals[i] <= 1.0) { st.oracle_fail("window value outside [0,1]", &op, "[0,1]", &format!("{:e}", vals[i])); }
             }
+            // the `Window` iterator consumed through nth / skip / step_by / take must hand out the same values
+            // as repeated next() (it never ends: no terminal consumers, size_hint must not promise an end)
+            if n <= 40 || n % 50 == 0 {
+                let long = 8 * (count + 4);
+                let mut prng = Rng::new(a.seed ^ n as u64, "win-proto");
+                let script = iterproto::gen_script(&mut prng, count, iterproto::Caps { double_ended: false, exact: false, finite: false });
+                let got = guarded(|| if kind == "hann" {
+                    let reference: Vec<u64> = Window::<[f64; 1], Hann>::new(n).take(long).map(|f| f[0].to_bits()).collect();
+                    (reference, iterproto::run_fwd_map(Window::<[f64; 1], Hann>::new(n), &script, |f| f[0].to_bits()))
+                } else {
+                    let reference: Vec<u64> = Window::<[f64; 1], Rectangle>::new(n).take(long).map(|f| f[0].to_bits()).collect();
+                    (reference, iterproto::run_fwd_map(Window::<[f64; 1], Rectangle>::new(n), &script, |f| f[0].to_bits()))
+                });
+                match got {
+                    None => st.oracle_fail(&format!("Window panicked when consumed by {:?}", script), &op, "", "panic"),
+                    Some((reference, got)) => match iterproto::check(&reference, &script, &got, false, false).0 {
+                        Some((what, e, o)) => st.oracle_fail(&format!("Window: {}", what), &op, &e, &o),
+                        None => { st.oracle_ok(script.len() as u64); st.count("iterator_protocol_scripts"); }
+                    },
+                }
+            }
             st.count(&format!("{}_windows", kind));
             st.case(&op, &obs.join(" "), n >= 3, count as u64);
         }
@@ -270,6 +291,26 @@ fn one_case<S: Smp, const N: usize, W: WindowFn<f64, Output = f64>>(st: &mut Str
                         Some((what, e, o)) => st.oracle_fail(&format!("windower: {}", what), &short, &e, &o),
                         None => { st.oracle_ok(script.len() as u64); st.count("iterator_protocol_scripts"); }
                     },
+                }
+            }
+        }
+        // a chunk (`Windowed`) advanced with nth: frame j of chunk k however it is reached
+        if bin <= l && want_chunks >= 1 && win.len() == bin && bin <= 4096 {
+            let k = rng.usize_below(want_chunks.min(1 << 20));
+            let j = rng.usize_below(bin);
+            let got = guarded(|| {
+                let mut w: Windower<[S; N], W> = Windower::new(&frames, bin, hop);
+                let mut chunk = w.nth(k).expect("chunk exists");
+                let a = chunk.nth(j);
+                let b = chunk.next();
+                (a, b)
+            });
+            match got {
+                None => st.oracle_fail("windower/chunk panicked when advanced with nth", &short, "", "panic"),
+                Some((a, b)) => {
+                    let wa = Some(frames[k * hop + j].mul_amp(win[j]));
+                    let ok_b = j + 1 >= bin || b == Some(frames[k * hop + j + 1].mul_amp(win[j + 1]));
+                    if a != wa || !ok_b { st.oracle_fail(&format!("chunk {} advanced with nth({}) then next(): not frames {}.. scaled by the window values for their positions", k, j, k * hop + j), &short, &format!("{:?}", wa), &format!("{:?} then {:?}", a, b)); } else { st.oracle_ok(2); }
                 }
             }
         }
